@@ -84,8 +84,9 @@ def run(ctx, eng):
             raised.add(tuple(cm.show0(c) for c in conds))
     acc = [e for p in cm.normal_paths(paths) for e in p.events
            if e.kind == 'write' and e.attr == '_actual_content_length']
-    ok_acc = bool(acc) and all(e.aug == '+' and e.operand == ('p', 'length')
-                               for e in acc)
+    ok_acc = bool(acc) and all(
+        cm.increment_operand(e) is not None and
+        cm.aff_is(cm.increment_operand(e), {'length': 1}) for e in acc)
     ACT = 'self._actual_content_length + length'
     want_over = cm.mk_aff_key('>', {'self._actual_content_length': 1,
                                     'length': 1, EXP: -1}, 0)
